@@ -22,7 +22,7 @@ META = {
                    "in [0, upper bound] (upper bounds from the real upper_conc_bounds, infinite for species without elemental "
                    "composition) and 0 <= h <= 1",
     "bounds": {"quick": "systems with <= 4 substances (3^n sign patterns x min comparisons paths each), incl. species without composition",
-               "thorough": "systems with <= 6 substances"},
+               "thorough": "systems with <= 5 substances"},
     "assumptions": [
         "stubs on the captured instances: odesys.to_arrays/pre_process identity, odesys.f_cb returns arbitrary reals (division by a zero "
         "derivative follows numpy float64 semantics, as for the arrays the real callback returns), "
@@ -34,6 +34,7 @@ META = {
     "trusted_base": ["z3 5.1", "vlib/zsym.py"],
 }
 
+DEADLINE = [400]
 EXTRA = [["e-(aq) + OH -> OH-", "e-(aq) + H+ -> H", "H + OH -> H2O"], ["e-(aq) + H+ -> H"], ["e-(aq) + OH -> OH-", "OH + OH -> H2O2"]]
 
 REPLAY = '''
@@ -62,7 +63,12 @@ sys.exit(1 if bad else 0)
 '''
 
 
-def task_euler(systems):
+def task_euler(systems, deadline=400):
+    DEADLINE[0] = deadline
+    return _task_euler(systems)
+
+
+def _task_euler(systems):
     from chempy import ReactionSystem, Substance
     from chempy.kinetics.ode import get_odesys
 
@@ -107,7 +113,7 @@ def task_euler(systems):
                     conds.append(new <= ut)
             return z3.And(*conds)
 
-        o = explore_and_prove(fn, assum, goal, max_paths=60000, deadline_s=400, timeout_ms=30000, numpy_div=True)
+        o = explore_and_prove(fn, assum, goal, max_paths=200000, deadline_s=DEADLINE[0], timeout_ms=30000, numpy_div=True)
         res["obligations"] += o.obligations
         res["discharged"] += o.discharged
         res["queries"] += o.queries
@@ -131,7 +137,7 @@ def task_euler(systems):
 def tasks(tier, seed):
     from chempy import ReactionSystem, Substance
 
-    maxn = 4 if tier == "quick" else 6
+    maxn = 4 if tier == "quick" else 5
     cand = EXTRA + gen.kin_systems(tier, seed)
     systems = []
     for s in cand:
@@ -141,6 +147,6 @@ def tasks(tier, seed):
             continue
         if rs.ns <= maxn and s not in systems:
             systems.append(s)
-    systems = systems[: (10 if tier == "quick" else 40)]
+    systems = systems[: (10 if tier == "quick" else 32)]
     n = min(len(systems), 10 if tier == "quick" else 16)
-    return [dict(id="C06.euler.%02d" % i, fn="task_euler", kwargs=dict(systems=systems[i::n]), timeout=2400) for i in range(n)]
+    return [dict(id="C06.euler.%02d" % i, fn="task_euler", kwargs=dict(systems=systems[i::n], deadline=400 if tier == "quick" else 1500), timeout=2400 if tier == "quick" else 7000) for i in range(n)]
